@@ -116,6 +116,29 @@ def relogin_session(rng, nsteps):
     return st
 
 
+def overtake_sessions(rng, n):
+    """Pipelining: a relative request is suspended inside one of its path-condition queries when CWD / CDUP arrives and is handled at
+    once; when the request goes on, what it does must be authorised for the path it then acts on."""
+    out = []
+    reqs = [("DELE f", "is_file"), ("DELE f", "exists"), ("MLST f", "exists"), ("MKD n0", "exists"), ("RMD k", "is_dir"), ("RMD n0", "exists"),
+            ("RNFR f", "exists"), ("CWD b", "is_dir"), ("MLST .", "exists"), ("DELE b/f", "is_file"), ("MKD b/n1", "exists")]
+    for _ in range(n):
+        a, b = rng.choice(PATHS), rng.choice(PATHS)
+        req, op = rng.choice(reqs)
+        move = rng.choice(["CWD /" + "/".join(b), "CWD /" + "/".join(b), "CDUP", "CWD " + rng.choice(["..", "b", "/c/../a"])])
+        st = [["connect", 1], ["send", 1, "USER u"], ["send", 1, "CWD /" + "/".join(a)]]
+        if rng.random() < 0.3:
+            st += [["send", 1, "RNFR /a/f"], ["gate", 1, "exists", 1], ["send", 1, "RNTO g0"]]
+        else:
+            st += [["gate", 1, op, 1], ["send", 1, req]]
+        st += [["send", 1, move]]
+        if rng.random() < 0.3:
+            st += [["send", 1, "PWD"]]
+        st += [["release", 1], ["send", 1, "PWD"], ["send", 1, "MLST f"], ["send", 1, "MLST /a/f"], ["send", 1, "MLST /c/f"]]
+        out.append(st)
+    return out
+
+
 def cfg_for2(ta, tb):
     users = [{"id": "u", "login": "u", "pw": "", "max": 0, "perms": ta, "home": [], "base": ["R"]},
              {"id": "v", "login": "v", "pw": "", "max": 0, "perms": tb, "home": [], "base": ["R"]}]
@@ -147,6 +170,10 @@ def run(tier, seed):
         home = ["a"] if name == "hidden-root-readable-home" else []
         corecheck.validate(chk, cfg_for(table, home), TREE, [s for _, s in fam], label="perm:" + name)
         total += len({repr(s) for _, s in fam})
+    for name, table in tables:
+        fam3 = overtake_sessions(rng, 40 if tier == "quick" else 300)
+        corecheck.validate(chk, cfg_for(table, []), TREE, fam3, label="overtake:" + name)
+        total += len({repr(x) for x in fam3})
     # the table that applies is the *current* user's: the same requests as two users on one connection
     names = list(TABLES)
     for _ in range(4 if tier == "quick" else 40):
@@ -156,7 +183,8 @@ def run(tier, seed):
         total += len({repr(x) for x in fam2})
     chk.cov["rule"] = ("permission tables (nested, overlapping, duplicated with disagreeing flags, unordered, empty, seeded random) x "
                        "sessions of permission-checked commands on targets of depth 0..3 spelled absolutely, relatively, with '..' "
-                       "detours and redundant slashes from varying working directories, and the same requests repeated after re-login as a user with another table on the same connection; the model computes the admissible verdicts "
+                       "detours and redundant slashes from varying working directories; relative requests overtaken by a pipelined CWD / CDUP "
+                       "while suspended in a path-condition query; and the same requests repeated after re-login as a user with another table on the same connection; the model computes the admissible verdicts "
                        "from the nearest entries and requires tree and cwd unchanged after a refusal (tree compared at every "
                        "quiescent instant); distinct = sessions x tables")
     chk.cov["distinct_nontrivial"] = total
